@@ -109,7 +109,7 @@ fn gen_config(rng: &mut Rng) -> (String, String) {
             c += &format!("count_exclude = [\"{p}\"]\n");
         }
         if rng.chance(1, 2) {
-            let p = pick(rng, "deny_patterns", "*.bak", "**/*.bak");
+            let p = pick(rng, "deny_patterns", "src/*.bak", "**/*.bak");
             c += &format!("deny_patterns = [\"{p}\"]\n");
         }
         if rng.chance(2, 3) {
@@ -303,8 +303,8 @@ fn spelling_case(sink: &mut Sink, rng: &mut Rng, bin: &str, scratch: &str) {
                     other => problems.push(format!("key=raw-path-matching the structure rule for scope src does not apply to src (file-count limit {other:?})")),
                 }
             }
-            if (has("deny_patterns:root") || has("deny_patterns:any")) && !rows.keys().any(|k| k.starts_with("tmp.bak [") && k.contains("denied")) {
-                problems.push("key=raw-path-matching deny_patterns does not flag tmp.bak".to_string());
+            if (has("deny_patterns:root") || has("deny_patterns:any")) && !rows.keys().any(|k| k.starts_with("src/old.bak [") && k.contains("denied")) {
+                problems.push("key=raw-path-matching deny_patterns does not flag src/old.bak".to_string());
             }
         }
     }
